@@ -170,7 +170,10 @@ class Exec:
         if z3.is_false(st):
             return False
         self.explorer.feas_checks += 1
-        r = self.solver.check(t)
+        try:
+            r = self.solver.check(t)
+        except z3.Z3Exception:  # e.g. the sequence solver's "reached max unfolding": same as `unknown`
+            return True
         return r != z3.unsat  # unknown is treated as feasible (sound: only adds paths)
 
     def fork(self, cond: Any) -> bool:
